@@ -174,6 +174,7 @@ def state_facts(world: World, snap: Snapshot, st: State, memo_keys, dyn_names, u
                 st.set_base("dyn_has", (r, z3.StringVal(n)), z3.BoolVal(False))
     for (lst, content) in snap.lists.values():
         st.set_base("elems", world.ref(lst), world.seq(content))
+    st.defaults = {"memo_has": z3.BoolVal(False), "dyn_has": z3.BoolVal(False), "stats_has": z3.BoolVal(False)}
     st.set_base("CACHING", (), z3.BoolVal(snap.caching))
     for u in uids:
         st.set_base("stats_has", (z3.IntVal(u),), z3.BoolVal(u in snap.stats))
@@ -582,6 +583,14 @@ class Monitor:
                         target = world.ref(x)
                         used.add(id(x))
                         break
+            if target is None and isinstance(scls, str) and scls == "<container>":
+                for (lst, _cp) in post.lists.values():
+                    if id(lst) not in pre.lists and id(lst) not in used and lst is not result:
+                        target = world.ref(lst)
+                        used.add(id(lst))
+                        break
+                if target is None:
+                    target = T.fresh("unobservable_container", Ref)     # garbage: nothing observable refers to it
             if target is None:
                 return self.fail(qualname, "the contract promises a fresh object, none appeared", conc)
             subst.append((sr, target))
@@ -649,7 +658,7 @@ class Monitor:
                                      f"expected {z3.simplify(S_(o.post.read('elems', r)))} observed {P.read('elems', r)}")
         for l in o.loose:
             fname_ = l.fieldname
-            for sch in l.constraint(lambda *a, fname_=fname_: P.read(fname_, *a), lambda *a, fname_=fname_: S.read(fname_, *a)):
+            for sch in l.constraint(lambda *a, fname_=fname_: P.read(fname_, *a), lambda *a, fname_=fname_: S.read(fname_, *a), P):
                 for f in inst(sch):
                     if not holds(S_(f)):
                         return self.fail(qualname, f"constraint {sch.name} on {l.fieldname} violated", conc, str(z3.simplify(S_(f)))[:300])
